@@ -18,7 +18,7 @@ func init() {
 		Explain: "Decides on every path of the mocks package: the mock async producer gives each input message at most one outcome (one send on Successes/Errors per iteration) and the sync producer returns exactly the expectation's result or the partitioner/checker error (C20.one-outcome); expectations are consumed from the head, one per message, len(msgs) for SendMessages (C20.fifo); the partition is the configured partitioner's choice over the configured partition count and is what is stored in / returned for the message (C20.partition); " +
 			"lastOffset is incremented exactly once per success and consumer offsets come from the atomic high-water-mark counter (C20.offsets); every deviation branch reports to the ErrorReporter exactly once and the set of reporting sites is the tabled one (C20.report); expectation state is accessed under the mock's mutex (C20.lock). " +
 			"NOT covered: the behaviour of user-supplied checkers and partitioners, channel capacity effects.",
-		Rules: []func(*Ctx){c20OneOutcome, c20Fifo, c20Partition, c20Offsets, c20Report, c20Lock, c20Atomic},
+		Rules: []func(*Ctx){c20OneOutcome, c20Fifo, c20Partition, c20Offsets, c20Report, c20Lock, c20Atomic, c20OwnConfig},
 	})
 }
 
@@ -380,5 +380,31 @@ func c20Atomic(c *Ctx) {
 	}
 	if n < 3 {
 		c.Unresolved(rule, fmt.Sprintf("offset assignments in functions that also take expectations (found %d)", n))
+	}
+}
+
+// C20.own-config: the configured partition counts are the mock's own copy.
+func c20OwnConfig(c *Ctx) {
+	p := c.P
+	rule := "C20.own-config"
+	c.Doc(rule, "TopicConfig.overridePartitions is only ever assigned a map made by the mock itself (make), never a map handed in by the caller: SetPartitions copies the entries, so what the partitioner is given depends only on the calls made to this mock, not on what the caller (or another mock configured from the same map) later does to its map")
+	c.Floor(rule, 1)
+	n := 0
+	for _, fn := range p.Fns {
+		if rootFn(fn).Pkg != p.Mocks {
+			continue
+		}
+		for _, s := range Info(fn).Find(StoreTo(nil, "TopicConfig.overridePartitions")) {
+			st, ok := s.In.(*ssa.Store)
+			if !ok {
+				continue
+			}
+			n++
+			_, fresh := strip(st.Val).(*ssa.MakeMap)
+			c.Check(fresh, rule, fn, "fresh-map", st, "overridePartitions ← a map made here", "TopicConfig.overridePartitions is assigned a map that is not made by the mock ("+describe(st.Val)+"): the mock's partition counts alias the caller's map — later changes to it (or SetPartitions on another mock configured from the same map) change the counts this mock hands to its partitioner, and the mock writes into the caller's map", nil)
+		}
+	}
+	if n == 0 {
+		c.Unresolved(rule, "stores to TopicConfig.overridePartitions")
 	}
 }
